@@ -43,7 +43,7 @@ _FNS = ['things:f2', 'things:h1', 'things:Base', 'things:Other', 'things:LeafCls
 def strategy_(draw, tier):
   kinds = ['B', 'B', 'B', 'B', 'list', 'list', 'list', 'dict', 'dict', 'nt', 'tuple',
              # further node kinds of the shared generator that this check's oracle handles (each once)
-             'TV', 'mdict', 'set', 'fset', 'ltuple', 'ntuple', 'Bpos', 'Bmut', 'Bmut1', 'Bmutnest', 'Bpo', 'Bpo3', 'Bdc', 'Bempty', 'AFP', 'odict', 'dcinst', 'Bclash']
+             'TV', 'mdict', 'set', 'fset', 'ltuple', 'ntuple', 'Bpos', 'Bmut', 'Bmut1', 'Bmutnest', 'Bpo', 'Bpo3', 'Bdc', 'Bempty', 'AFP', 'odict', 'dcinst', 'Bclash', 'ddict', 'kdict']
   if draw(st.floats(0, 1)) < 0.06:
     kinds = kinds + ['Bpos', 'Bpos']
   old = draw(dags.dag(max_nodes=9, min_nodes=2, kinds=kinds, fns=_FNS, root_kinds=['B'],
@@ -246,8 +246,9 @@ def _features(old, new):
   f = set()
   for root in (old, new):
     for _, v in C.walk(root):
-      if isinstance(v, fdl.Buildable) and any(isinstance(k, int) for k in v.__arguments__):
-        f.add('positional-arg')
+      if isinstance(v, fdl.Buildable) and (any(isinstance(k, int) for k in v.__arguments__) or any(
+          isinstance(k, int) and ts for k, ts in v.__argument_tags__.items())):
+        f.add('positional-arg')   # an argument or a tag keyed by position
   return f
 
 
